@@ -1,4 +1,5 @@
 import FinamModel.Integration
+import FinamModel.Props.C12
 import FinamModel.Translated.AvgOverTime__interpolate
 import FinamModel.Translated.SumOverTime__interpolate
 import FinamModel.Translated.TimeIntegrationAdapter__get_data_avg
@@ -240,5 +241,108 @@ theorem tr_TimeIntegrationAdapter__get_data_avg (d : List (Int × Rat)) (prev : 
       · simp [h1, h2, Except.map]
       · simp only [h1, h2, if_false, ok_bind]
         cases TI.avgInterp step (⟨p.1, p.2⟩ :: toE r) prev t <;> simp [Except.map]
+
+/-! ### C12 on the regenerated code
+
+An integration adapter whose requests are answered by the *translated* `TimeIntegrationAdapter._get_data` (with the
+translated `_interpolate` of `AvgOverTime` / `SumOverTime` inside); notifications append to the buffer and set
+`_prev_time` the first time, as `_source_updated` does. -/
+
+structure CodeTI where
+  buf : List (Int × Rat)
+  prev : Option Int
+
+def codeGetTI (c : TI.Cfg) (buf : List (Int × Rat)) (prev t : Int) : Except Err (Rat × Int × List (Int × Rat)) :=
+  match c.mode with
+  | .avg => Tr.TimeIntegrationAdapter__get_data_avg buf prev c.step t
+  | .sum pt init => Tr.TimeIntegrationAdapter__get_data_sum buf prev c.step pt init t
+
+def codeStepTI (c : TI.Cfg) (s : CodeTI) : TA.Ev → CodeTI × Option (Except Err Rat)
+  | .push t v => (⟨s.buf ++ [(t, v)], match s.prev with | none => some t | some p => some p⟩, none)
+  | .pull t =>
+    match codeGetTI c s.buf (s.prev.getD 0) t with
+    | .ok (v, p', buf') => (⟨buf', some p'⟩, some (.ok v))
+    | .error e => (s, some (.error e))
+
+def codeRunTI (c : TI.Cfg) : CodeTI → List TA.Ev → List (Option (Except Err Rat))
+  | _, [] => []
+  | s, ev :: evs => (codeStepTI c s ev).2 :: codeRunTI c (codeStepTI c s ev).1 evs
+
+theorem code_get_ti_eq (c : TI.Cfg) (buf : List (Int × Rat)) (prev t : Int) (hs : Sorted (toE buf)) :
+    codeGetTI c buf prev t = (TI.getData c (toE buf) prev t).map (fun v => (v, t, ofE (TA.clear (toE buf) prev))) := by
+  obtain ⟨step, mode⟩ := c
+  cases mode with
+  | avg => exact tr_TimeIntegrationAdapter__get_data_avg buf prev step t hs
+  | sum pt init => exact tr_TimeIntegrationAdapter__get_data_sum buf prev step pt init t hs
+
+theorem code_step_sim_ti (c : TI.Cfg) (cs : CodeTI) (s : TI.IState) (hb : toE cs.buf = s.buf) (hp : cs.prev = s.prev)
+    (hi : TI.Inv s) (ev : TA.Ev) :
+    (codeStepTI c cs ev).2 = (TI.stepImpl c s ev).2 ∧ toE (codeStepTI c cs ev).1.buf = (TI.stepImpl c s ev).1.buf ∧
+      (codeStepTI c cs ev).1.prev = (TI.stepImpl c s ev).1.prev := by
+  cases ev with
+  | push t v =>
+    refine ⟨rfl, ?_, ?_⟩
+    · show toE (cs.buf ++ [(t, v)]) = s.buf ++ [⟨t, v⟩]
+      simp [toE, ← hb]
+    · show (match cs.prev with | none => some t | some p => some p) = _
+      rw [hp]; rfl
+  | pull t =>
+    have hs : Sorted (toE cs.buf) := by
+      obtain ⟨p, hp'⟩ := hi.suffix
+      rw [hb]; exact Finam.Props.C11.sorted_suffix' p s.buf (hp' ▸ hi.sorted)
+    cases hbuf : s.buf with
+    | nil =>
+      have hg : TI.getData c [] (cs.prev.getD 0) t = .error .noData := by simp [TI.getData, TA.checkRange]
+      have hstep : TI.stepImpl c s (.pull t) = (s, some (.error .noData)) := by
+        simp [TI.stepImpl, hbuf]
+      rw [hstep]
+      simp only [codeStepTI, code_get_ti_eq c cs.buf _ t hs, hb, hbuf, hg, Except.map]
+      refine ⟨?_, ?_, ?_⟩ <;> first | trivial | exact hp | (rw [hb, hbuf]) | (simp [hb, hbuf])
+    | cons e r =>
+      obtain ⟨p, hprev, _⟩ := hi.prevOk e r hbuf
+      have hcp : cs.prev.getD 0 = p := by rw [hp, hprev]; rfl
+      simp only [codeStepTI, hcp, code_get_ti_eq c cs.buf p t hs, hb, hbuf]
+      cases hg : TI.getData c (e :: r) p t with
+      | error err =>
+        have hstep : TI.stepImpl c s (.pull t) = (s, some (.error err)) := by simp [TI.stepImpl, hbuf, hprev, hg]
+        rw [hstep]
+        simp only [Except.map]
+        refine ⟨?_, ?_, ?_⟩ <;> first | trivial | exact hp | (rw [hb, hbuf]) | (simp [hb, hbuf])
+      | ok v =>
+        have hstep : TI.stepImpl c s (.pull t) = ({ s with buf := TA.clear (e :: r) p, prev := some t }, some (.ok v)) := by
+          simp [TI.stepImpl, hbuf, hprev, hg]
+        rw [hstep]
+        simp only [Except.map]
+        refine ⟨?_, ?_, ?_⟩ <;> first | trivial | (simp [toE_ofE])
+
+theorem code_run_sim_ti (c : TI.Cfg) : ∀ (evs : List TA.Ev) (cs : CodeTI) (s : TI.IState),
+    toE cs.buf = s.buf → cs.prev = s.prev → TI.Inv s → TI.preAllB c s evs = true →
+    codeRunTI c cs evs = (TI.runBoth c s evs).map (·.1) := by
+  intro evs
+  induction evs with
+  | nil => intro cs s _ _ _ _; rfl
+  | cons ev evs ih =>
+    intro cs s hb hp hi hpre
+    simp only [TI.preAllB, Bool.and_eq_true] at hpre
+    obtain ⟨h1, h2, h3⟩ := code_step_sim_ti c cs s hb hp hi ev
+    simp only [codeRunTI, TI.runBoth, List.map_cons, h1]
+    rw [ih _ _ h2 h3 (TI.inv_step c s hi ev (TI.pre_of_preB s ev hpre.1)) hpre.2]
+
+/-- **C12 on the code.**  For every interleaving of publications (strictly increasing) and requests (non-decreasing)
+    every request at `p1` inside the published range that follows a request (or the first publication) at `p0 < p1` is
+    answered by the *translated* `_get_data` / `_interpolate` of `SumOverTime` / `AvgOverTime` with the exact integral of
+    the interpolant of the *full* publication history over `[p0, p1]` (divided by `p1 - p0` for the average). -/
+theorem code_integration_refines_spec (c : TI.Cfg) (evs : List TA.Ev) (h : TI.preAllB c TI.init evs = true) :
+    ∀ (i : Nat) (v : Rat), ((TI.runBoth c TI.init evs).map (·.2))[i]? = some (some v) →
+      (codeRunTI c ⟨[], none⟩ evs)[i]? = some (some (.ok v)) := by
+  intro i v hv
+  rw [code_run_sim_ti c evs ⟨[], none⟩ TI.init rfl rfl TI.init_inv h]
+  simp only [List.getElem?_map] at hv ⊢
+  cases hp : (TI.runBoth c TI.init evs)[i]? with
+  | none => rw [hp] at hv; simp at hv
+  | some p =>
+    rw [hp] at hv
+    simp only [Option.map_some, Option.some.injEq] at hv ⊢
+    exact integration_refines_spec c evs h p (List.mem_of_getElem? hp) v hv
 
 end Finam.Props.C12
